@@ -99,9 +99,13 @@ func NewWorld(opt Options) (*World, error) {
 
 func (w *World) Close() {
 	for _, n := range w.Nodes {
-		if n != nil && n.Cancel != nil {
+		if n == nil {
+			continue
+		}
+		if n.Cancel != nil {
 			n.Cancel()
 		}
+		n.CloseHandles()
 	}
 	if w.Dir != "" {
 		_ = os.RemoveAll(w.Dir)
